@@ -43,7 +43,18 @@ func diffAt(a, b string) string {
 // copies of records
 
 type recCase struct {
-	R wm.Rec
+	R    wm.Rec
+	Bare bool `json:",omitempty"` // hand the library a bare *RR_Header carrying R's header instead of the record
+}
+
+// bareHeader is the header of rr as a value of its own. *RR_Header satisfies the RR interface (the
+// library's own tests put such values into update messages; UnpackRRWithHeader returns one next to
+// an error) without being a record type. Copy gives nil for it today - a nil shares nothing with
+// anything, so that is within the statement; what the statement rules out is a "copy" that is the
+// original (or shares with it), and the read-only operations writing to it.
+func bareHeader(rr dns.RR) *dns.RR_Header {
+	h := *rr.Header()
+	return &h
 }
 
 func mutableShape(r wm.Rec) (string, bool) {
@@ -74,7 +85,22 @@ func checkCopyRR(c recCase) error {
 		return nil
 	}
 	shape, mut := mutableShape(c.R)
-	pbt.Note([]byte(shape), mut, "type:"+typeName(c.R.Type))
+	if c.Bare {
+		pbt.Note([]byte("bare/"+shape), true, "bare-header")
+		h := bareHeader(rr)
+		before := snap(h)
+		cp := dns.Copy(h)
+		if after := snap(h); after != before {
+			return pbt.Errf("Copy changed the bare header it was given: %s", diffAt(after, before))
+		}
+		if cp == nil || reflect.ValueOf(cp).IsNil() {
+			pbt.Class("bare-header:nil-copy") // nothing shared; that it is no copy at all is outside the statement
+			return nil
+		}
+		rr = h // a value came back: it is held to the same standard as every other copy
+	} else {
+		pbt.Note([]byte(shape), mut, "type:"+typeName(c.R.Type))
+	}
 	// an emptied or pre-allocated slice (length 0, capacity > 0) must not be shared either: a later
 	// append on one side would write into the other
 	roomy(rr)
@@ -135,7 +161,9 @@ func genRec(t *rapid.T) recCase {
 	if rapid.IntRange(0, 3).Draw(t, "opt") == 0 {
 		return recCase{R: gen.OptRec(t, o)}
 	}
-	return recCase{R: gen.Rec(t, o)}
+	c := recCase{R: gen.Rec(t, o)}
+	c.Bare = rapid.IntRange(0, 19).Draw(t, "bare") == 0
+	return c
 }
 
 func eachOptionKind(emit func(recCase)) {
@@ -155,6 +183,10 @@ func eachOptionKind(emit func(recCase)) {
 		{Code: 4, Data: []byte{192, 0, 2, 1, 192, 0, 2, 2}}, {Code: 5, Data: []byte{1, 2, 3}}, {Code: 6, Data: append([]byte{0x20, 1}, make([]byte, 14)...)},
 		{Code: 7, Data: []byte("/dns-query{?dns}")}, {Code: 8, Data: []byte{}}, {Code: 65280, Data: []byte{9, 9}},
 	}
+	// bare headers (class ANY / NONE with no RDATA: the RFC 2136 prerequisite and delete forms)
+	for _, cl := range []uint16{1, 254, 255} {
+		emit(recCase{Bare: true, R: wm.Rec{Name: wm.MustName("bare.example."), Type: wm.TA, Class: cl, NoRdata: true}})
+	}
 	for _, p := range params {
 		for _, typ := range []uint16{wm.TSVCB, wm.THTTPS} {
 			emit(recCase{R: wm.Rec{Name: wm.MustName("s."), Type: typ, Class: 1, Fields: []wm.Field{{K: wm.U16, U: 1}, {K: wm.NameU, N: wm.MustName("t.")}, {K: wm.Params, Opts: []wm.Option{p}}}}})
@@ -168,6 +200,61 @@ func eachOptionKind(emit func(recCase)) {
 type msgCase struct {
 	M   wm.Msg
 	Odd int `json:",omitempty"` // read-only-operations: a hand-assembled oddity applied to the library value (0: none)
+	// copy-message, read-only-operations: record (Bare-1) mod n of the message is replaced by a bare
+	// *RR_Header carrying its header (0: none) - the way old dynamic-update code spells "no RDATA"
+	Bare int `json:",omitempty"`
+}
+
+// slot addresses one element of one record section.
+type slot struct {
+	sec int // 0 answer, 1 authority, 2 additional
+	i   int
+}
+
+func (s slot) in(m *dns.Msg) *dns.RR {
+	sec := [][]dns.RR{m.Answer, m.Ns, m.Extra}[s.sec]
+	if s.i >= len(sec) {
+		return nil
+	}
+	return &sec[s.i]
+}
+
+// makeBare replaces the chosen record of m by a bare header. OPT and TSIG are left alone: the
+// library finds those two by their type code and then takes the concrete type for granted.
+func makeBare(m *dns.Msg, k int) (slot, bool) {
+	n := len(m.Answer) + len(m.Ns) + len(m.Extra)
+	if k == 0 || n == 0 {
+		return slot{}, false
+	}
+	k = (k - 1) % n
+	s := slot{0, k}
+	if k >= len(m.Answer)+len(m.Ns) {
+		s = slot{2, k - len(m.Answer) - len(m.Ns)}
+	} else if k >= len(m.Answer) {
+		s = slot{1, k - len(m.Answer)}
+	}
+	p := s.in(m)
+	if t := (*p).Header().Rrtype; t == dns.TypeOPT || t == dns.TypeTSIG {
+		return slot{}, false
+	}
+	*p = bareHeader(*p)
+	return s, true
+}
+
+// bareCopied looks at what a message copy holds in the place of the bare header of the original.
+// Nil (today's behaviour) shares nothing: it is replaced by an equal header of the harness's own so
+// that every other part of the copy is still compared with the original. Anything else stays and
+// is examined like every other record of the copy.
+func bareCopied(orig, cp *dns.Msg, s slot) (wasNil bool) {
+	p := s.in(cp)
+	if p == nil {
+		return false // a section came back shorter: the comparison that follows says so
+	}
+	if *p == nil || reflect.ValueOf(*p).IsNil() {
+		*p = bareHeader(*s.in(orig))
+		return true
+	}
+	return false
 }
 
 func genMsg(t *rapid.T) msgCase {
@@ -184,6 +271,9 @@ func genMsg(t *rapid.T) msgCase {
 			c.M.An = append(c.M.An, apl)
 		}
 	}
+	if rapid.IntRange(0, 7).Draw(t, "bare") == 0 {
+		c.Bare = rapid.IntRange(1, 12).Draw(t, "barewhich")
+	}
 	return c
 }
 
@@ -198,12 +288,19 @@ func checkCopyMsg(c msgCase) error {
 		return nil
 	}
 	pbt.Note(msgKey(c.M), len(c.M.AllRecs()) > 0 || len(c.M.Q) > 0, fmt.Sprintf("records=%d", min(len(c.M.AllRecs()), 6)))
+	bareAt, bare := makeBare(lib, c.Bare)
+	if bare {
+		pbt.Class("bare-header")
+	}
 	for variant := 0; variant < 2; variant++ {
 		var cp *dns.Msg
 		if variant == 0 {
 			cp = lib.Copy()
 		} else {
 			cp = lib.CopyTo(new(dns.Msg))
+		}
+		if bare && bareCopied(lib, cp, bareAt) && variant == 0 {
+			pbt.Class("bare-header:nil-in-copy")
 		}
 		if snap(cp) != snap(lib) {
 			return pbt.Errf("Msg copy (variant %d) differs from the original: %s", variant, diffAt(snap(cp), snap(lib)))
@@ -222,6 +319,7 @@ func checkCopyMsg(c msgCase) error {
 	// third message, which only lent its slices to the scratch value, must not change either.
 	for variant := 0; variant < 2; variant++ {
 		lib, _ = wm.MsgToLib(c.M, true)
+		makeBare(lib, c.Bare)
 		third, err := wm.MsgToLib(c.M, true)
 		if err != nil {
 			return nil
@@ -234,6 +332,9 @@ func checkCopyMsg(c msgCase) error {
 		thirdBefore := snap(third)
 		dst := *third // shares every slice with third
 		cp := lib.CopyTo(&dst)
+		if bare {
+			bareCopied(lib, cp, bareAt)
+		}
 		if len(lib.Question) > 0 && snap(cp.Question) != snap(lib.Question) {
 			return pbt.Errf("CopyTo into a used message: questions differ from the source: %s", diffAt(snap(cp.Question), snap(lib.Question)))
 		}
@@ -407,6 +508,10 @@ func checkReadOnly(c msgCase) error {
 				pbt.Class("odd:stale-rdlength")
 			}
 		}
+	}
+	// a record spelled as a bare header (Pack, Len, String and IsDuplicate all take it)
+	if _, bare := makeBare(lib, c.Bare); bare {
+		pbt.Class("bare-header")
 	}
 	// the sections are windows into larger arrays (a reply assembled from slices of a cached RRset):
 	// what lies behind a section's length is not the library's to write
